@@ -108,7 +108,7 @@ Proof.
   destruct (lookup id l) as [i| |] eqn:E; [| |reflexivity].
   - rewrite IH. destruct (lookup_found_nth_keyed _ _ _ E) as (x & Hx & Hk).
     apply (filter_remove_at _ l i x Hx). now apply keyed_unk.
-  - unfold bind, emit. destruct mex; cbn [r_err r_st fail]; [reflexivity|]. apply IH.
+  - unfold bind, emit. cbn [r_err r_st]. apply IH.
 Qed.
 
 (* ---- inserts *)
@@ -143,7 +143,7 @@ Proof.
   induction new as [|s r IH]; intros seen i l H; simpl; [reflexivity|].
   simpl in H. apply andb_prop in H as [Hs Hr].
   destruct (existsb (okeqb (id_of s)) seen).
-  - unfold bind, emit. destruct mex; cbn [r_err r_st fail]; [reflexivity|]. now apply IH.
+  - unfold bind, emit. cbn [r_err r_st]. now apply IH.
   - rewrite IH by assumption. apply filter_insert_at. now apply keyed_unk.
 Qed.
 
